@@ -37,7 +37,10 @@ RULE = ('a case = (kind chunk|rdb|token, retry configuration (total, connect, re
         'uses; compared per use. site cases = put_chunk | is_complete | mark_complete on a fresh store with a fault script '
         'over statuses 5xx/404/403/401/400/409, reset / close / stall before the answer (answers without a body, as S3 '
         'gives them) plus answers with a body that is cut or reset (tie only): all scripts of length <= 2 for three '
-        'budgets plus random ones. Non-trivial = the '
+        'budgets plus random ones. url cases = relative paths of 1-4 components over names with / without underscores, '
+        'dashes, dots (leading / trailing slashes now and then) through S3ChunkStore.make_url and _bucket_url; '
+        'and every object request of every other case kind must ask for the path the model of make_url gives for the '
+        'chunk name. Non-trivial = the '
         'script contains at least one fault or the token is rejected; distinct by the whole canonical case.')
 ASSUMPTIONS = [
     'urllib3 2.x / requests 2.x behaviour as installed (Retry.increment/is_exhausted, urlopen status retries, '
@@ -171,6 +174,8 @@ def model_case(case):
                       for o in case['ops']]]]
     if case['kind'] == 'tokhist':
         return hist_model_case(case)
+    if case['kind'] == 'url':
+        return [94, [[ord(c) for c in case['rel']]]]
     if case['kind'] == 'site':
         n = 0 if case.get('empty', True) else len(pls[case['payload']]['data'])
         if case['site'] == 'mark':
@@ -234,6 +239,7 @@ def impl_chunk(case, read_timeout):
         cls = classify_exc(e)
         _state['last_exc'] = str(e)
     log = fake.requests()
+    _state['last_log'] = log
     return cls, ''.join(k[0] for k in log), log
 
 
@@ -331,6 +337,10 @@ def compare_session(ctx, case, mout, read_timeout=0.5, confirm=True):
         want_req = 'O' * mo + 'B' * mb
         listed = {bucket_of_path(e[2]) for e in log if e[0] == 'B'}
         asked = {bucket_of_path(e[2]) for e in log if e[0] == 'O'}
+        if confirm and k < len(case['ops']):
+            o = case['ops'][k]
+            idx = '_'.join('%05d' % 0 for _ in env()[1][o['payload']]['array'].shape)
+            check_paths(ctx, case, log, ['%s/arr/%s.npy' % (BUCKET_NAMES[o['bucket']], idx)])
         if icls != scls:
             first.setdefault('property', (k, 'result', icls, scls))
         elif listed and listed != asked:
@@ -390,6 +400,8 @@ def compare(ctx, case, mout, read_timeout=0.5, confirm=True):
         return compare_session(ctx, case, mout, read_timeout, confirm)
     if kind == 'tokhist':
         return compare_hist(ctx, case, mout, read_timeout, confirm)
+    if kind == 'url':
+        return compare_url(ctx, case, mout)
     if kind == 'site':
         return compare_site(ctx, case, mout, read_timeout, confirm)
     case['_consumed'] = mout[1]
@@ -408,7 +420,10 @@ def compare(ctx, case, mout, read_timeout=0.5, confirm=True):
         if icls != mcls or ireq != want_req_m:
             problems.append(('tie', 'result' if icls != mcls else 'requests', icls, mcls))
     elif kind == 'chunk':
-        icls, ireq, _ = impl_chunk(case, read_timeout)
+        icls, ireq, clog = impl_chunk(case, read_timeout)
+        if confirm:
+            idx = '_'.join('%05d' % 0 for _ in env()[1][case['payload']]['array'].shape)
+            check_paths(ctx, case, clog, ['bkt/arr/%s.npy' % idx])
         mcls, mo, mb, scls = mout[0][0], mout[1], mout[2], mout[4][0]
         want_req_m = 'O' * mo + 'B' * mb
         problems = []
@@ -1066,6 +1081,10 @@ def compare_site(ctx, case, mout, read_timeout=0.5, confirm=True):
     names[10] = 'False'
     problems = []
     paths = [e[2].split('?')[0] for e in log]
+    if confirm:
+        idx = '_'.join('%05d' % 0 for _ in pls[case['payload']]['array'].shape)
+        check_paths(ctx, case, log, ['bkt', 'bkt/arr/complete'] if site == 'mark' else
+                    ['bkt/arr/complete'] if site == 'complete' else ['bkt/arr/%s.npy' % idx])
     if site == 'mark':
         mcls, nb, n = mout[0][0], mout[1], mout[2]
         scls, snb, sn = mout[3][0], mout[4], mout[5]
@@ -1170,6 +1189,92 @@ def site_cases(ctx):
 
 
 # ---------------------------------------------------------------------------------------------------
+# which object is asked for: make_url / _bucket_url on generated relative paths
+
+def url_cases(ctx):
+    rng = ctx.rng
+    words = ['bkt', 'b_2', 'c3', '1557528200_sdp_l0', 'correlator_data', 'a_b_c', '_', '__x', 'x_', '-', 'a-b_c', 'arr',
+             '00000_00012_00512.npy', 'complete', 'w.x_y', '_-_']
+    rels = ['bkt/arr/00000_00000.npy', 'b_2/arr/00000.npy', '1557528200_sdp_l0/correlator_data/00012_00000_00512.npy',
+            'b_2', '/b_2/x_y', 'b_2/', 'a_b/c_d', '_/_', '']
+    for _ in range(ctx.scale(150, 1500)):
+        n = rng.choice((1, 2, 2, 3, 3, 4))
+        segs = [rng.choice(words) if rng.random() < 0.7 else
+                ''.join(rng.choice('ab_-.09Z') for _ in range(rng.randint(1, 6))) for _ in range(n)]
+        segs = [x if x not in ('.', '..') else 'd' + x for x in segs]
+        rel = '/'.join(segs)
+        if rng.random() < 0.1:
+            rel = '/' + rel
+        if rng.random() < 0.1:
+            rel += '/'
+        rels.append(rel)       # no empty or dot components in the middle: urljoin drops / resolves them (urllib, not katdal)
+    return [dict(kind='url', rel=r) for r in dict.fromkeys(rels) if not r.startswith('//')]
+
+
+def compare_url(ctx, case, mout):
+    import urllib.parse
+    from katdal.chunkstore_s3 import S3ChunkStore, _bucket_url
+    fake, _ = env()
+    store = _state.get('url_store')
+    if store is None:
+        store = _state['url_store'] = S3ChunkStore(fake.url)
+    txt = lambda codes: ''.join(chr(c) for c in codes)
+    want_path, want_bucket = txt(mout[0]), txt(mout[1])
+    problems = []
+    try:
+        url = store.make_url(case['rel'])
+        sp = urllib.parse.urlsplit(url)
+        got_path = sp.path
+        got_bucket = urllib.parse.urlsplit(_bucket_url(url)).path.lstrip('/')
+        base_ok = url.startswith(fake.url) and not sp.query and not sp.fragment
+    except Exception as e:
+        got_path = got_bucket = 'raised %s' % type(e).__name__
+        base_ok = True
+    ctx.traces_validated += 1
+    if got_path != want_path or not base_ok:
+        problems.append(('path', got_path, want_path))
+    elif got_bucket != want_bucket:
+        problems.append(('bucket', got_bucket, want_bucket))
+    for what, a, b in problems:
+        first = case['rel'].lstrip('/').split('/')[0]
+        sig = 'kind=url;components=%d;underscore_in_bucket=%d;underscore_in_key=%d;leading_slash=%d;what=%s' % (
+            len([x for x in case['rel'].split('/') if x]), int('_' in first),
+            int('_' in case['rel'].lstrip('/')[len(first):]), int(case['rel'].startswith('/')), what)
+        ctx.disagree(sig, case, dict(got=a), dict(model=b),
+                     'make_url / _bucket_url: %s of the request differs from the model (%r, want %r)' % (what, a, b),
+                     spec=b, kind='property')
+    return not problems
+
+
+def expected_paths(ctx):
+    """Object paths the other case kinds must ask for, from the model: chunk name -> path on the wire."""
+    _, pls = env()
+    names = {}
+    for b in BUCKET_NAMES:
+        for p in pls:
+            idx = '_'.join('%05d' % 0 for _ in p['array'].shape)
+            names['%s/arr/%s.npy' % (b, idx)] = None
+        names[b + '/arr/complete'] = None
+        names[b] = None
+    keys = sorted(names)
+    outs = ctx.model([[94, [[ord(c) for c in k]]] for k in keys])
+    return {k: ''.join(chr(c) for c in o[0]) for k, o in zip(keys, outs)}
+
+
+def check_paths(ctx, case, log, names):
+    """Every object request of a case asks for one of the expected objects (by the model of make_url)."""
+    exp = _state.get('expected_paths')
+    if not exp or _state.get('stale'):
+        return
+    ok = {exp[n] for n in names if n in exp}
+    bad = [e[2] for e in log if e[0] == 'O' and e[2].split('?')[0] not in ok]
+    if bad:
+        ctx.disagree('kind=%s;what=another_object_requested' % case['kind'], case, dict(requested=bad[:3]),
+                     dict(expected=sorted(ok)), 'a request asked for %s, expected one of %s' % (bad[0], sorted(ok)),
+                     spec=sorted(ok), kind='property')
+
+
+# ---------------------------------------------------------------------------------------------------
 
 def canon(case):
     return json.dumps({k: v for k, v in case.items() if k not in ('token_str', 'url') and not k.startswith('_')},
@@ -1217,6 +1322,12 @@ def run_cases(ctx, cases):
                 if k and u['ms'] < c['uses'][k - 1]['ms']:
                     ctx.count('tokhist_clock_set_back')
             continue
+        if c['kind'] == 'url':
+            ctx.note_case(canon(c), nontrivial='_' in c['rel'], sample=c if i % 97 == 0 else None)
+            ctx.count('kind=url')
+            first = c['rel'].lstrip('/').split('/')[0]
+            ctx.count('url_underscore=bucket:%d,key:%d' % (int('_' in first), int('_' in c['rel'].lstrip('/')[len(first):])))
+            continue
         if c['kind'] == 'site':
             ctx.note_case(canon(c), nontrivial=bool(c['fs']), sample=c if i % 97 == 0 else None)
             ctx.count('kind=site')
@@ -1263,6 +1374,9 @@ def run(ctx):
         for fn in sorted(os.listdir(cdir)):
             if fn.endswith('.json'):
                 run_cases(ctx, [json.load(open(os.path.join(cdir, fn)))])
+    if ctx.model_ok and not _state.get('stale'):
+        _state['expected_paths'] = expected_paths(ctx)
+    run_cases(ctx, url_cases(ctx))
     run_cases(ctx, token_cases(ctx))
     run_cases(ctx, hist_cases(ctx))
     run_cases(ctx, site_cases(ctx))
@@ -1297,6 +1411,9 @@ def replay(ctx, doc):
     case = doc.get('case') or doc.get('witness')
     if not case or 'kind' not in case:
         return
+    if ctx.model_ok:
+        env()
+        _state['expected_paths'] = expected_paths(ctx)
     mo = ctx.model([model_case(case)])[0]
     ok = compare(ctx, case, mo)
     ctx.note_case(canon(case))
